@@ -83,6 +83,15 @@ def main(tier, only=None):
             r["replay"] = {"scheduled": got, "solo": solo, "errors": errs}
             e = runner.match_finding(findings, key)
             (known if e else adv_viol).append((key, r, e))
+    # operation-event granularity (yield points inside forward and backward passes), exhaustive over two small programs
+    op = replay_threads.op_level_probe(runner.SEED, max_schedules=300 if tier == "quick" else 3000)
+    for r in op:
+        replays += r["schedules_run"]
+        if r["bad"]:
+            key = "operation-level schedule programs=%s" % "|".join(r["programs"])
+            rr = {"scripts": r["programs"], "schedule": r["bad"]["schedule"], "replay": {"scheduled": r["bad"]["scheduled"], "solo": r["bad"]["solo"], "errors": r["bad"]["errors"]}, "op_level": True}
+            e = runner.match_finding(findings, key)
+            (known if e else adv_viol).append((key, rr, e))
     # K suffices (CrossHair): results depend on trace ids only through their order
     conds = [dict(module="vf.ch.h_c08", func="_contract2", cases=32, what="depth-2 canaries with trace ids arbitrary but satisfying contract K give the solo results"),
              dict(module="vf.ch.h_c08", func="_nest2", cases=32, what="shift invariance of the canaries")]
@@ -91,7 +100,7 @@ def main(tier, only=None):
     for key, r, e in known:
         print("KNOWN-FINDING: property=%s %s [%s]" % (ID, e["what"], key))
     for key, r, e in violations + adv_viol:
-        p = runner.write_replay(ID, key, {"cex": {"mode": "threads", "scripts": r["scripts"], "schedule": r["schedule"]}, "detail": r.get("replay")})
+        p = runner.write_replay(ID, key, {"cex": {"mode": "threads-op" if r.get("op_level") else "threads", "scripts": r["scripts"], "schedule": r["schedule"]}, "detail": r.get("replay")})
         print("VIOLATION property=%s replay=%s" % (ID, os.path.relpath(p, runner.VERIF)))
         print("  scripts=%s schedule=%s -> scheduled results %s, solo results %s %s" % (r["scripts"], r["schedule"], r["replay"]["scheduled"], r["replay"]["solo"], r["replay"]["errors"] or ""))
     for r in errors[:10]:
@@ -108,6 +117,7 @@ def main(tier, only=None):
         "verdicts": {v: sum(1 for r in real if r["verdict"] == v) for v in ("unsat", "sat", "unknown")},
         "adversarial_schedules_replayed_on_real_threads": len([r for r in advr if r["verdict"] == "sat"]),
         "crosshair": [{"condition": r["key"], "verdict": r["verdict"]} for r in ch],
+        "operation_level_probe": [{"programs": r["programs"], "yield_points": r["yield_points"], "schedules_run": r["schedules_run"], "ok": not r["bad"]} for r in op],
         "solver_time_s": round(sum(r["time"] for r in res), 2),
         "functions_encoded": ["autograd.tracer:trace (executed with a z3 Int counter)", "autograd.tracer:TraceStack.new_trace", "autograd.tracer:new_box", "autograd.tracer:find_top_boxed_args (CrossHair, ids constrained only by K)"],
         "source_sha256_16": runner.source_hashes(FILES),
@@ -116,7 +126,8 @@ def main(tier, only=None):
     }
     assume = ["assume-guarantee split: (B) CrossHair shows results depend on trace ids only through contract K; (C) z3 decides, for every script tuple, whether SOME interleaving violates K under the transition relation extracted from the real code",
               "whether threads share the counter is read off the real object with two real threads", "sat schedules are replayed on real threads by a strictly serialising scheduler with yield points in user code only",
-              "additionally the schedules that would break K under a shared counter are replayed on real threads regardless of the extracted model"]
+              "additionally the schedules that would break K under a shared counter are replayed on real threads regardless of the extracted model",
+              "operation-event granularity is NOT solver-decided: 15 pairs of small array programs (sort / partition / indexing / dot / nested and reused VJPs) with yield points inside forward and backward passes are run under every interleaving of their yield points (exhaustive enumeration, real threads) and compared with solo runs"]
     nv = len(violations) + len(adv_viol) + len(known)
     runner.write_evidence(ID, tier, "model_checking", cov, assume, time.time() - t0, nv)
     print("%s [%s] script tuples=%d %s adversarial replays=%d crosshair=%s wall=%.1fs" % (ID, tier, len(real), cov["verdicts"], cov["adversarial_schedules_replayed_on_real_threads"], [r["verdict"] for r in ch], time.time() - t0))
@@ -133,6 +144,13 @@ def replay(path):
 
     d = json.load(open(path))
     cex = d["cex"]
+    if cex.get("mode") == "threads-op":
+        bad = [r for r in replay_threads.op_level_probe(runner.SEED, 3000) if r["bad"]]
+        print("operation-level probe:", [(r["programs"], r["bad"]["schedule"]) for r in bad])
+        if bad:
+            print("VIOLATION property=%s replay=%s" % (ID, path))
+            return 1
+        return 0
     got, solo, errs = replay_threads.run(tuple(cex["scripts"]), cex["schedule"])
     print("scheduled:", got, "solo:", solo, errs)
     if got != solo or errs:
